@@ -88,5 +88,9 @@ pub mod stdx {
 
     pub assume_specification [ <str as PartialOrd>::partial_cmp ] (a: &str, b: &str) -> (r: Option<std::cmp::Ordering>)
         ensures r == Some(str_ord(a@, b@));
+
+    /// `slice.contains(&x)` for element types whose `==` is equality of values (stated per type by a PartialEqSpecImpl with obeys_eq_spec)
+    pub assume_specification<T: PartialEq> [ <[T]>::contains ] (s: &[T], x: &T) -> (r: bool)
+        ensures <T as vstd::std_specs::cmp::PartialEqSpec>::obeys_eq_spec() ==> r == s@.contains(*x);
 }
 } // verus!
